@@ -6,7 +6,7 @@ PROP = dict(
     namespaces=["Comdex.C07"],
     required_theorems=["Comdex.C07.placement_takes_exactly", "Comdex.C07.taken_eq_offer_plus_fee", "Comdex.C07.finish_moves_exactly",
                        "Comdex.C07.fill_pays_demand_coins", "Comdex.C07.terminated_settled", "Comdex.C07.escrow_holds_only_live_orders",
-                       "Comdex.C07.cancellable_after_batch", "Comdex.C07.mm_cancel_cancels_all", "Comdex.C07.mm_replace_cancels_all",
+                       "Comdex.C07.cancellable_after_batch", "Comdex.C07.cancellable_after_batch_of_conserving", "Comdex.C07.lostOf_zero_of_modelled", "Comdex.C07.mm_cancel_cancels_all", "Comdex.C07.mm_replace_cancels_all",
                        "Comdex.C07.mm_cancel_cancels_all_counterexample"],
     harness_tests=["TestC07"],
     trusted_base=[KERNEL_TB, HARNESS_TB,
@@ -19,7 +19,8 @@ PROP = dict(
                   "the model's order lookup in cancelMMOrder is the REPAIRED one (appId, pairId, id); the lookup as it stands in "
                   "swap.go:559 is kept as a switch of the model only to prove the counterexample and to recognise D4 in the run"],
     assumptions=["per-app generic params (swap fee rate) are fixed over a history",
-                 "cancellable_after_batch: observed match results conserve coins (else the escrow may lack the refund, D2)",
+                 "cancellable_after_batch: the match results of THAT pair lost nothing (lostOf a p ops = 0; proved for lossless runs "
+                 "of C05's modelled matcher, lostOf_zero_of_modelled); else the escrow may lack the refund (D2)",
                  "heights stay below 150 (swap-fee conversion hook not exercised); block times are whole seconds"],
     rule="each case is one generated history on a fresh app (see C04), with more market-making and cancel traffic; the D4 witness "
          "(app 2 / pair 1, 20 MM orders, next batch, MsgCancelMMOrder) is replayed first; distinct = distinct trace text, "
@@ -38,5 +39,5 @@ META = dict(
          "of the owner's MM index for every app id / pair id with the repaired lookup, and a concrete counterexample (app 2 / pair 1) "
          "for the lookup as it stands in swap.go:559 (D4). Monitors on real data: every user's balance change is explained by the "
          "order / request / farm records, escrow and fee collector exactness, cancellability, MM cancel completeness.",
-    note="On the unchanged tree the run reports DIFF + MON mm_cancel_all (D4, one-line fix in notes/C07.md).",
+    note="D4 (swap.go:559 swapped lookup) was found by this check and is fixed in /repo; before the fix the run reported DIFF + MON mm_cancel_all.",
 )
